@@ -316,6 +316,46 @@ def d_ods(ctx):
                    f"{[info[i] for i in failing[:3]]} {log[:500]}")
 
 
+def d_spaces(ctx):
+    """<text:s text:c=RAW/> through the real read_odt: number of spaces between two tokens vs the model."""
+    from sharepoint2text.parsing.extractors.open_office.odt_extractor import read_odt
+    rng = ctx.rng
+    raws = ["1", "2", "0", "-3", "17", "x", "", " 4 ", "1e3", "+5", "007", "３", None] + [str(rng.randint(-5, 300)) for _ in range(ctx.n(30, 300))]
+    cases, info = [], []
+    for raw in raws:
+        attr = "" if raw is None else f' text:c="{raw}"'
+        odt = io.BytesIO()
+        with zipfile.ZipFile(odt, "w") as z:
+            z.writestr("mimetype", "application/vnd.oasis.opendocument.text")
+            z.writestr("content.xml", f'<?xml version="1.0" encoding="UTF-8"?><office:document-content {ODS_NS}><office:body><office:text>'
+                       f'<text:p>AAA<text:s{attr}/>BBB</text:p></office:text></office:body></office:document-content>')
+            z.writestr("META-INF/manifest.xml", '<?xml version="1.0"?><manifest:manifest xmlns:manifest='
+                       '"urn:oasis:names:tc:opendocument:xmlns:manifest:1.0"/>')
+        try:
+            res = list(read_odt(io.BytesIO(odt.getvalue())))
+            txt = res[0].get_full_text()
+        except Exception as e:  # noqa
+            ctx.count("spaces:error:" + type(e).__name__)
+            continue
+        a, b = txt.find("AAA"), txt.find("BBB")
+        if a < 0 or b < 0:
+            ctx.count("spaces:tokens-missing")
+            continue
+        between = txt[a + 3:b]
+        got = len(between) if set(between) <= {" "} else -1
+        try:
+            parsed = int(raw) if raw is not None else 1
+        except ValueError:
+            parsed = None
+        ctx.case(("text:s", raw), raw not in ("1", None), kind="odf:text-s")
+        cases.append(f"({'None' if parsed is None else f'Some ({parsed})'}, {got})%Z")
+        info.append((raw, got))
+    pre = "From S2T Require Import C12.Model C12.Corr.\nOpen Scope Z_scope.\n"
+    ok, failing, log = coq_eval_shards(ctx, "sp", pre, "space_case", cases, ty="option Z * Z")
+    ctx.obligation("correspondence:space_count==spaces produced by read_odt for <text:s text:c>", ok and not failing and len(cases) > 10,
+                   f"{[info[i] for i in failing[:5]]} {log[:400]}")
+
+
 WORKER = r'''
 import io, sys, resource, time, json
 sys.path.insert(0, sys.argv[1])
@@ -388,7 +428,9 @@ def measured(ctx):
 
 def run(ctx):
     import logging
+    import warnings
     logging.disable(logging.CRITICAL)
+    warnings.filterwarnings("ignore", message="Duplicate name")
     ctx.rule = ("limit lattice (each limit -1/0/+1, 0 and negative limits); random archives (zip/tar/7z, members around the "
                 "per-member limit, dirs/hidden/unsupported interleaved); random ODS repeat structures; measured amplifiers. "
                 "non-trivial = a size within +-1 of a limit, an oversize member, a repeat attribute > 1, or an amplifier")
@@ -405,12 +447,14 @@ def run(ctx):
     lim = gen_limits(ctx)
     ctx.prove("C12/Props.v", ["C12/Proofs.vo", "C12/Corr.vo"], expected=[
         "C12_read_file_limit_exact", "C12_sevenz_limit_exact", "C12_zip_tar_oversize_untouched",
-        "C12_sevenz_oversize_not_decompressed_refuted", "C12_ods_output_linear_refuted", "C12_ods_bounded_repeats_partial"])
+        "C12_sevenz_oversize_not_decompressed_refuted", "C12_ods_output_linear_refuted", "C12_ods_bounded_repeats_partial",
+        "C12_odf_space_count_spec", "C12_odf_space_count_unbounded_refuted"])
     ctx.prove("C12/Inst.v", ["Gen/C12Limits.vo", "C12/Proofs.vo"], expected=[
         "C12_sevenz_limit_is_100MB", "C12_read_file_default_on", "C12_member_limit_consistent"])
     d_limits(ctx, lim)
     d_archives(ctx)
     d_ods(ctx)
+    d_spaces(ctx)
     measured(ctx)
 
 
